@@ -242,6 +242,8 @@ def run(ctx, reader=READER, pid=PID):
     with multiprocessing.get_context("fork").Pool(16, maxtasksperchild=1) as pool:
         for r in pool.imap_unordered(shard, specs):
             acc.merge(r)
+            if __import__('mc.runner').runner.enough(acc):
+                break
     cov = {
         "evaluations": acc.n, "distinct_nontrivial": acc.nontrivial,
         "rule": "%d modules (value alphabet of %d simple values x shapes top/sequence/set/nested/in-group/in-object, all "
